@@ -438,6 +438,9 @@ func (e *engine) checkPatchCase(worker int, c *patchCase, seed, want *jsonread.V
 		}
 	}
 
+	if ln.Status == "dc" {
+		return // outside the stated domain: executed (panics, hangs, well-formed output, C05's order clause), nothing else is compared
+	}
 	switch prop {
 	case "C08":
 		if ln.Status == "err" {
